@@ -1,16 +1,27 @@
 #!/bin/bash
-# Builds every check binary from files on disk only (offline). Warm the Go build cache.
+# Builds every registered check binary from files on disk only (offline) and warms the Go build cache.
+# A check that is registered in MANIFEST.json must build; unregistered (work-in-progress) commands are best effort.
 set -u
 source /verif/bin/env.sh
 cd /verif/harness || exit 1
 mkdir -p bin /verif/.work /verif/evidence /verif/replays
 cp /repo/go.sum go.sum 2>/dev/null
+registered=$(jq -r '.checks[].property_id' /verif/MANIFEST.json | tr 'A-Z' 'a-z')
 fail=0
+build() {
+  n=$1
+  extra=""
+  [ -f cmd/$n/BUILDFLAGS ] && extra=$(cat cmd/$n/BUILDFLAGS)
+  [ -x /verif/bin/prebuild-$n ] && { /verif/bin/prebuild-$n || return 1; }
+  go build $extra -o bin/$n ./cmd/$n
+}
+for n in instr elkx $registered; do
+  [ -d cmd/$n ] || continue
+  build $n || { echo "setup: build of $n failed" >&2; fail=1; }
+done
 for d in cmd/*/; do
   n=$(basename $d)
-  extra=""
-  [ -f $d/BUILDFLAGS ] && extra=$(cat $d/BUILDFLAGS)
-  [ -x /verif/bin/prebuild-$n ] && /verif/bin/prebuild-$n
-  go build $extra -o bin/$n ./cmd/$n || { echo "setup: build of $n failed" >&2; fail=1; }
+  case " instr elkx $registered " in *" $n "*) continue;; esac
+  build $n 2>/dev/null || echo "setup: (unregistered) $n does not build yet" >&2
 done
 exit $fail
